@@ -1,14 +1,21 @@
 (* C19 - conformer (SD) and SMILES files round-trip: the part e3fp itself computes.
    Statements only; proofs are in Proofs/Files.v.  Model: Model/Files.v (M8).
 
-   The SD codec is RDKit's: `G` (what identifies the molecule), `C` (one coordinate block) and `rt4 : C -> C` (what a block
-   becomes through SDWriter + ForwardSDMolSupplier) are universally quantified; properties travel as strings. *)
+   The SD codec is RDKit's: `G` (what identifies the molecule), `C` (one coordinate block), `rt4 : C -> C` (what a block
+   becomes through SDWriter + ForwardSDMolSupplier) and `codec : props -> props` (what a property map becomes) are universally
+   quantified; `codec` is assumed to be the identity on maps whose string values contain no line feed (`sd_safe`; RDKit drops a
+   value with a blank line, strips a trailing line feed, and a title with a line feed makes the record unreadable).
+
+   Premises that remain in the statements: `good_entry` (SMILES tables), `NoDup (map fst t)`, `sd_safe (m_props m) = true` and the
+   `codec` hypothesis (SD read-back), `pget K_E .. = None` / formatted energies (write_restores_props), one energy per conformer
+   (sdf_energies). *)
 From Coq Require Import QArith Qabs Sorting.Permutation.
 From E3FP Require Import Base.Prelude Model.Files Proofs.Files.
 Open Scope Z_scope.
 
 (* ---- SMILES tables ------------------------------------------------------------------------------------------------- *)
-(* names and SMILES non-empty and free of white space, names distinct: dict_to_smiles then smiles_to_dict gives the same
+(* names and SMILES non-empty, free of ASCII white space and of the UTF-8 lead bytes C2/E1/E2/E3 under which every non-ASCII
+   white space of Unicode is encoded (`good_entry`; str.split() splits at U+00A0, U+2028, ... too), names distinct: dict_to_smiles then smiles_to_dict gives the same
    entries, listed by name ... *)
 Theorem smiles_table_rt : forall t, Forall good_entry t -> NoDup (map fst t) ->
   smiles_to_dict (dict_to_smiles t) false false = Ok (esort t) /\ Permutation (esort t) t.
@@ -50,8 +57,11 @@ Print Assumptions energy_codec_nearest.
 (* ---- SD files ------------------------------------------------------------------------------------------------------ *)
 (* number and order: the molecule read back holds the first `write limit` conformers of the molecule, cut to the first `read
    limit`, in order, renumbered 0..; it is the same molecule; the written molecule keeps its conformers *)
-Theorem sdf_count_order : forall (G C : Type) (rt4 : C -> C) m wl rl fb m' recs r,
-  mol_to_sdf G C m wl = Ok (m', recs) -> mol_from_sdf G C rt4 recs rl fb = Ok r ->
+Theorem sdf_count_order : forall (G C : Type) (rt4 : C -> C) (codec : props -> props),
+  (forall p, sd_safe p = true -> codec p = p) ->
+  forall m wl rl fb m' recs r,
+  sd_safe (m_props G C m) = true ->
+  mol_to_sdf G C m wl = Ok (m', recs) -> mol_from_sdf G C rt4 codec recs rl fb = Ok r ->
   map (c_xyz C) (m_confs G C r) =
     map rt4 (map (c_xyz C) (read_take rl (firstn (room wl 0 (length (m_confs G C m))) (m_confs G C m)))) /\
   map (c_id C) (m_confs G C r) = map Z.of_nat (seq 0 (length (m_confs G C r))) /\
@@ -61,8 +71,11 @@ Proof. exact sdf_count_order. Qed.
 Print Assumptions sdf_count_order.
 
 (* the count is the minimum of the number of conformers and the two limits (None and -1 mean "all") *)
-Theorem sdf_count : forall (G C : Type) (rt4 : C -> C) m wl rl fb m' recs r,
-  mol_to_sdf G C m wl = Ok (m', recs) -> mol_from_sdf G C rt4 recs rl fb = Ok r ->
+Theorem sdf_count : forall (G C : Type) (rt4 : C -> C) (codec : props -> props),
+  (forall p, sd_safe p = true -> codec p = p) ->
+  forall m wl rl fb m' recs r,
+  sd_safe (m_props G C m) = true ->
+  mol_to_sdf G C m wl = Ok (m', recs) -> mol_from_sdf G C rt4 codec recs rl fb = Ok r ->
   length (m_confs G C r) =
     let n := length (m_confs G C m) in
     let w := if limit_active wl then Nat.min n (Z.to_nat (limit_val wl)) else n in
@@ -72,9 +85,12 @@ Print Assumptions sdf_count.
 
 (* energies: with one energy per conformer, the molecule read back carries the formatted energies of exactly the conformers
    it received, in order, and no stray Energy property *)
-Theorem sdf_energies : forall (G C : Type) (rt4 : C -> C) m wl rl fb m' recs r l,
+Theorem sdf_energies : forall (G C : Type) (rt4 : C -> C) (codec : props -> props),
+  (forall p, sd_safe p = true -> codec p = p) ->
+  forall m wl rl fb m' recs r l,
+  sd_safe (m_props G C m) = true ->
   get_conformer_energies (m_props G C m) = Ok (Some l) -> (length (m_confs G C m) <= length l)%nat ->
-  mol_to_sdf G C m wl = Ok (m', recs) -> mol_from_sdf G C rt4 recs rl fb = Ok r ->
+  mol_to_sdf G C m wl = Ok (m', recs) -> mol_from_sdf G C rt4 codec recs rl fb = Ok r ->
   pget K_CE (m_props G C r) = Some (PEn (map canon (firstn (length (m_confs G C r)) l))) /\
   pget K_E (m_props G C r) = None.
 Proof. exact sdf_energies. Qed.
@@ -132,8 +148,23 @@ Example ex_write_read :
   let m := mkmol Z Z 7 [(K_NAME, PStr [109]); (K_CE, PEn [Canon 12346; Canon 25000; Canon (-1)])]
                  [mkconf Z 0 100; mkconf Z 1 200; mkconf Z 2 300] in
   exists m' recs r,
-    mol_to_sdf Z Z m (Some 2) = Ok (m', recs) /\ mol_from_sdf Z Z (fun x => x + 1) recs (Some 5) [102] = Ok r /\
+    mol_to_sdf Z Z m (Some 2) = Ok (m', recs) /\ mol_from_sdf Z Z (fun x => x + 1) (fun p => p) recs (Some 5) [102] = Ok r /\
     map (c_xyz Z) (m_confs Z Z r) = [101; 201] /\
     pget K_CE (m_props Z Z r) = Some (PEn [Canon 12346; Canon 25000]) /\
     pget K_CE (m_props Z Z m') = pget K_CE (m_props Z Z m) /\ pget K_E (m_props Z Z m') = None.
 Proof. eexists. eexists. eexists. split; [vm_compute; reflexivity|]. split; [vm_compute; reflexivity|]. vm_compute. repeat split. Qed.
+
+(* the boundary of `good_entry`: the name "a<U+00A0>b" (bytes 97 194 160 98) is not a good token, and the model - like
+   str.split() - reads the line "CCO a<NBSP>b" back as the name "a"; the same bytes inside a property value are harmless *)
+Example ex_nbsp_not_good : good_token_b [97; 194; 160; 98] = false /\ good_token_b [97; 195; 169; 98] = true /\
+  smiles_generator [67; 67; 79; 32; 97; 194; 160; 98; 10] = [([67; 67; 79], [97])] /\
+  smiles_generator [67; 32; 120; 226; 128; 168; 121; 10] = [([67], [120])] /\
+  smiles_generator [67; 32; 120; 226; 130; 172; 121; 10] = [([67], [120; 226; 130; 172; 121])].
+Proof. vm_compute. repeat split. Qed.
+
+(* a title with a line feed: the molecule is outside `sd_safe`, and reading the file raises *)
+Example ex_title_line_feed :
+  let m := mkmol Z Z 7 [(K_NAME, PStr [97; 10; 98])] [mkconf Z 0 100] in
+  sd_safe (m_props Z Z m) = false /\
+  exists m' recs, mol_to_sdf Z Z m None = Ok (m', recs) /\ mol_from_sdf Z Z (fun x => x) (fun p => p) recs None [102] = Raises EOther.
+Proof. split; [reflexivity|]. eexists. eexists. split; vm_compute; reflexivity. Qed.
